@@ -1,8 +1,13 @@
 """C24 — Dominance and post-order traversal match their graph definitions."""
 from __future__ import annotations
 
+import gc
+import inspect
 import itertools
-from typing import Any, Iterator, Sequence
+import json
+import signal
+import threading
+from typing import Any, Callable, Iterator, Sequence
 
 from vp import core
 
@@ -25,7 +30,19 @@ META = {
         "to the block bound with out-degree <= 2 (self-loops, multi-edges, unreachable blocks included) and "
         "random larger ones, and comparing dominates/strictly_dominates for every pair and the yielded "
         "sequence with the Lean driver; an independent Python oracle (reachability with a node removed, "
-        "cross-checked by simple-path enumeration) states the property directly on the implementation."
+        "cross-checked by simple-path enumeration) states the property directly on the implementation. "
+        "The enumeration is over labelled graphs, i.e. every order of the block list (loops listed before the "
+        "block that guards them included); random graphs include structured CFGs (nested loops, diamonds) "
+        "listed in a shuffled order; the answer does not depend on the listing order (dom_relabel, "
+        "strict_relabel) and the loop may start from any sound table but not from one that omits a dominator "
+        "(dominance_from_sound_start, prefix_start_counterexample, prefix_start_diverges). The graph is the "
+        "one the region has WHEN it is asked: ask/edit/ask histories keep real regions alive, retarget "
+        "edges, replace terminators, add/erase/move blocks or rebuild the region, and ask every entry point "
+        "(fresh DominanceInfo, its query methods, every public module-level query function of "
+        "xdsl.irdl.dominance found by introspection, a fresh PostOrderIterator) after each edit; each "
+        "answer is judged against the graph read back from the region at that moment and compared with "
+        "the model run on that graph. Every call into the real code runs under a CPU-time watchdog: an "
+        "implementation that does not terminate is a failing input."
     ),
     "technique": "Lean 4 fixpoint/invariant proofs + exhaustive small-graph and random differential correspondence with the real classes",
     "level_note": (
@@ -36,13 +53,25 @@ META = {
         "is therefore exercised for dominance only). The statement does not constrain what is reported for "
         "an unreachable block b (dominates(a, b)); the oracle checks reachable b only, the model/"
         "correspondence fixes it to 'every block'. Successors outside the region (KeyError in "
-        "DominanceInfo) are outside the statement: correspondence only."
+        "DominanceInfo) are outside the statement: correspondence only. A DominanceInfo object or a "
+        "PostOrderIterator created BEFORE an edit is a snapshot: what it reports afterwards is not "
+        "constrained (only objects created after the edit and the module-level functions are asked). "
+        "Module-level functions on regions of more than 4 blocks in histories are asked the pairs whose "
+        "expected answer changed since the last query plus a rotating fifth of the others. Non-termination "
+        "= more than 0.5 s (confirmed with 3 s) of process CPU time on a region of at most 15 blocks, "
+        "garbage collection excluded."
     ),
     "rule": (
         "every graph with n<=bound blocks (quick 3, thorough 4) where each block has 0, 1 or 2 ordered "
         "successors among the n blocks (duplicates and self-loops allowed), in each construction style; "
         "plus seeded random graphs with 4..12 blocks, out-degree <=3. Non-trivial = at least two blocks are "
-        "reachable from the entry. Distinct = distinct (function, successor lists, style)."
+        "reachable from the entry. Distinct = distinct (function, successor lists, style). Histories: every "
+        "graph with <=3 blocks x every single retargeted edge (quick: n=3 as far as the budget allows) and, "
+        "for <=2 blocks (thorough: <=3), every replaced terminator, as ask-edit-ask; plus seeded random histories "
+        "(1-2 regions of 3..8 blocks, 2..7 edits of 7 kinds). A history is non-trivial when the reference "
+        "dominance relation of a region differs between two consecutive queries of it; distinct = distinct "
+        "(regions, style, steps). Random graphs: a third are structured CFGs of 4..15 blocks listed in a "
+        "shuffled order."
     ),
     "trusted_base": [
         "correspondence harness harness/props/c24.py (differential, bounded-exhaustive + random)",
@@ -61,13 +90,30 @@ PO_SITE = "xdsl.ir.post_order.PostOrderIterator.__next__"
 # real-code adapter
 # ---------------------------------------------------------------------------------------------
 
+def add_term(b, tg, style: str) -> None:
+    """append the operation(s) that give block `b` the successor list `tg` in construction style `style`"""
+    from xdsl.dialects import cf, test
+    from xdsl.dialects.builtin import i1
+
+    if style == "cf" and len(tg) == 0:
+        pass
+    elif style == "cf" and len(tg) == 1:
+        b.add_op(cf.BranchOp(tg[0]))
+    elif style == "cf" and len(tg) == 2:
+        c = test.TestOp(result_types=[i1])
+        b.add_op(c)
+        b.add_op(cf.ConditionalBranchOp(c.results[0], tg[0], [], tg[1], []))
+    elif style == "op":
+        b.add_op(test.TestOp.create(successors=tg))  # as the parser builds `"test.op"()[^b]`
+    else:
+        b.add_op(test.TestTermOp(successors=tg))
+
+
 def build(succs: Sequence[Sequence[int]], style: str):
     """A real region whose i-th block branches to the blocks `succs[i]`.
     style `cf`: cf.br / cf.cond_br where the out-degree allows, an empty block for out-degree 0,
     test.termop otherwise; `term`: test.termop everywhere; `op`: test.op (no IsTerminator trait) as
     in tests/test_dominance.py.  An index >= n denotes a block of another region."""
-    from xdsl.dialects import cf, test
-    from xdsl.dialects.builtin import i1
     from xdsl.ir import Block, Region
 
     n = len(succs)
@@ -84,18 +130,7 @@ def build(succs: Sequence[Sequence[int]], style: str):
                     foreign[s] = Block()
                     keep.append(Region([foreign[s]]))
                 tg.append(foreign[s])
-        if style == "cf" and len(ss) == 0:
-            pass
-        elif style == "cf" and len(ss) == 1:
-            b.add_op(cf.BranchOp(tg[0]))
-        elif style == "cf" and len(ss) == 2:
-            c = test.TestOp(result_types=[i1])
-            b.add_op(c)
-            b.add_op(cf.ConditionalBranchOp(c.results[0], tg[0], [], tg[1], []))
-        elif style == "op":
-            b.add_op(test.TestOp.create(successors=tg))  # as the parser builds `"test.op"()[^b]`
-        else:
-            b.add_op(test.TestTermOp(successors=tg))
+        add_term(b, tg, style)
     return Region(blocks), blocks, keep
 
 
@@ -119,39 +154,199 @@ def show_rel(rel: Sequence[Sequence[int]]) -> str:
     return " ".join(show_list(r) for r in rel)
 
 
-def dom_impl(succs, style: str, module_level: bool = False):
-    """returns (observation line, dom lists or None, strict lists or None, module-level strict or None)"""
-    from xdsl.irdl.dominance import DominanceInfo, strictly_dominates
+# ---- watchdog --------------------------------------------------------------------------------
+# Termination is part of what is proved about the models (dominance_converges, postorder_terminates);
+# an implementation that loops for ever on some region must become a failing input, not a stuck check.
 
-    region, blocks, _keep = build(succs, style)
-    n = len(blocks)
+class Hang(BaseException):
+    """raised inside the real code when it used up its CPU budget (BaseException: passes `except Exception`)"""
+
+
+WATCHDOG_CPU_S = 0.5   # a region of <= 14 blocks needs well under a millisecond
+CONFIRM_CPU_S = 3.0    # budget used once more before a non-termination is reported
+MAX_HANGS = 12         # after that many the remaining random cases of a run are skipped
+HANGS = {"n": 0}
+_armed = {"installed": False}
+
+
+def _on_vtalrm(signum, frame):  # type: ignore[no-untyped-def]
+    raise Hang()
+
+
+RETRY = {"on": True}
+
+
+def _budgeted(fn: Callable[[], Any], cpu_s: float) -> Any:
+    gc_was_on = gc.isenabled()
+    gc.disable()  # a full collection of a large heap must not be charged to the code under test
+    signal.setitimer(signal.ITIMER_VIRTUAL, cpu_s)
     try:
+        return fn()
+    finally:
+        signal.setitimer(signal.ITIMER_VIRTUAL, 0)
+        if gc_was_on:
+            gc.enable()
+
+
+def guarded(fn: Callable[[], Any]) -> Any:
+    """fn() (a pure query: it may be run again) under a budget of CPU time of this process (ITIMER_VIRTUAL:
+    the load of the machine does not count).  When the budget is used up the call is repeated once with
+    four times the budget (a stall of the machine is transient, a loop that does not terminate is not);
+    raises Hang when that is used up too."""
+    if threading.current_thread() is not threading.main_thread():
+        return fn()
+    if not _armed["installed"]:
+        signal.signal(signal.SIGVTALRM, _on_vtalrm)
+        _armed["installed"] = True
+    try:
+        return _budgeted(fn, WATCHDOG_CPU_S)
+    except Hang:
+        if not RETRY["on"]:
+            HANGS["n"] += 1
+            raise
+    try:
+        return _budgeted(fn, 4 * WATCHDOG_CPU_S)
+    except Hang:
+        HANGS["n"] += 1
+        raise
+
+
+def without_retry(f: Callable[[], Any]) -> Any:
+    """while shrinking, a candidate that uses up the budget is simply not taken"""
+    saved = RETRY["on"]
+    RETRY["on"] = False
+    try:
+        return f()
+    finally:
+        RETRY["on"] = saved
+
+
+NONTERM = "raise NonTermination"
+
+
+# ---- entry points ----------------------------------------------------------------------------
+
+_EP: dict[str, Any] = {}
+
+
+def entry_points() -> tuple[list[tuple[str, bool]], list[tuple[str, bool, Any]]]:
+    """(other two-block query methods of DominanceInfo, public module-level two-block query functions of
+    xdsl.irdl.dominance) as (name, is_strict[, function]); found by introspection so that an entry point
+    added later is exercised too.  Private helpers (`_…`) are exercised through the public functions that
+    call them: the property speaks of what is reported to a caller.  A name containing `strict` or `proper` promises strict dominance,
+    any other name containing `dominates` reflexive dominance."""
+    if _EP:
+        return _EP["methods"], _EP["functions"]
+    import xdsl.irdl.dominance as m
+
+    def positional(f) -> int:
+        try:
+            ps = inspect.signature(f).parameters.values()
+        except (TypeError, ValueError):
+            return -1
+        if any(p.kind in (p.VAR_POSITIONAL, p.KEYWORD_ONLY) and p.default is p.empty for p in ps):
+            return -1
+        return sum(1 for p in ps if p.kind in (p.POSITIONAL_ONLY, p.POSITIONAL_OR_KEYWORD) and p.default is p.empty)
+
+    def strict(name: str) -> bool:
+        return "strict" in name or "proper" in name
+
+    methods = [(name, strict(name)) for name, f in sorted(vars(m.DominanceInfo).items())
+               if inspect.isfunction(f) and "dominates" in name and positional(f) == 3
+               and name not in ("dominates", "strictly_dominates")]
+    functions = [(name, strict(name), f) for name, f in sorted(vars(m).items())
+                 if inspect.isfunction(f) and f.__module__ == m.__name__ and "dominates" in name
+                 and not name.startswith("_") and positional(f) == 2]
+    _EP["methods"], _EP["functions"] = methods, functions
+    return methods, functions
+
+
+def relation(q: Callable[[Any, Any], Any], blocks, pairs=None) -> list[list[int]] | str:
+    """rel[b] = the a with q(a, b) true (only over `pairs` when given), or `raise …`"""
+    n = len(blocks)
+
+    def go():
+        rel: list[list[int]] = [[] for _ in range(n)]
+        for b in range(n):
+            for a in range(n):
+                if pairs is not None and (a, b) not in pairs:
+                    continue
+                if q(blocks[a], blocks[b]):
+                    rel[b].append(a)
+        return rel
+
+    try:
+        return guarded(go)
+    except Hang:
+        return NONTERM
+    except Exception as e:  # noqa: BLE001
+        return "raise " + core.exc_name(e)
+
+
+def observe_dom(region, blocks, module_level: bool = False, pairs=None):
+    """(observation line, dom lists or None, strict lists or None, other entry points or None).
+    The last is {dotted name: (is_strict, relation or `raise …`)} for every other DominanceInfo query method
+    (asked of the same fresh object) and every module-level query function; `pairs` restricts the
+    (a, b) asked of the module-level functions (they rebuild the analysis for every call)."""
+    from xdsl.irdl.dominance import DominanceInfo
+
+    n = len(blocks)
+    def fresh():
         d = DominanceInfo(region)
-        dom = [[a for a in range(n) if d.dominates(blocks[a], blocks[b])] for b in range(n)]
-        sdom = [[a for a in range(n) if d.strictly_dominates(blocks[a], blocks[b])] for b in range(n)]
+        return (d, [[a for a in range(n) if d.dominates(blocks[a], blocks[b])] for b in range(n)],
+                [[a for a in range(n) if d.strictly_dominates(blocks[a], blocks[b])] for b in range(n)])
+
+    try:
+        d, dom, sdom = guarded(fresh)
+    except Hang:
+        return NONTERM, None, None, None
     except Exception as e:  # noqa: BLE001
         return "raise " + core.exc_name(e), None, None, None
     ml = None
     if module_level:
-        ml = [[a for a in range(n) if strictly_dominates(blocks[a], blocks[b])] for b in range(n)]
+        methods, functions = entry_points()
+        ml = {}
+        for name, st in methods:
+            ml["xdsl.irdl.dominance.DominanceInfo." + name] = (st, relation(getattr(d, name), blocks))
+        for name, st, f in functions:
+            ml["xdsl.irdl.dominance." + name] = (st, relation(f, blocks, pairs))
     return f"d {show_rel(dom)} s {show_rel(sdom)}", dom, sdom, ml
 
 
-def po_impl(succs, style: str):
+def dom_impl(succs, style: str, module_level: bool = False):
+    region, blocks, _keep = build(succs, style)
+    return observe_dom(region, blocks, module_level)
+
+
+def observe_po(first_block, blocks):
     from xdsl.ir.post_order import PostOrderIterator
 
-    region, blocks, _keep = build(succs, style)
     idx = {id(b): i for i, b in enumerate(blocks)}
     out: list[int] = []
-    try:
-        it = PostOrderIterator(blocks[0])
+
+    def go():
+        del out[:]
+        it = PostOrderIterator(first_block)
         for b in it:
             out.append(idx.get(id(b), -1))
             if len(out) > 4 * len(blocks) + 4:
-                return "raise Runaway", out
+                return "raise Runaway"
+        return None
+
+    try:
+        r = guarded(go)
+    except Hang:
+        return NONTERM, out
     except Exception as e:  # noqa: BLE001
         return "raise " + core.exc_name(e), None
+    if r is not None:
+        return r, out
     return "po " + " ".join(map(str, out)), out
+
+
+def po_impl(succs, style: str):
+    _region, blocks, _keep = build(succs, style)
+    return observe_po(blocks[0], blocks)
 
 
 # ---------------------------------------------------------------------------------------------
@@ -205,8 +400,16 @@ def has_multi_edge(succs) -> bool:
     return any(len(set(s)) < len(s) for s in succs)
 
 
-def dom_oracle(succs, dom, sdom, ml) -> tuple[str, str, str] | None:
-    """(call_site, signature, description) of the first disagreement with path-based dominance"""
+def ref_dom_full(succs) -> list[list[int]]:
+    """ref_dom with the vacuous convention for unreachable blocks (dominated by every block)"""
+    n = len(succs)
+    ref = ref_dom(succs)
+    return [ref.get(b, list(range(n))) for b in range(n)]
+
+
+def dom_oracle(succs, dom, sdom, ml, pairs=None) -> tuple[str, str, str] | None:
+    """(call_site, signature, description) of the first disagreement with path-based dominance.
+    `ml`: the other entry points (see observe_dom), asked the pairs `pairs` (None: all)."""
     ref = ref_dom(succs)
     for b, want in ref.items():
         got = dom[b]
@@ -215,18 +418,31 @@ def dom_oracle(succs, dom, sdom, ml) -> tuple[str, str, str] | None:
             if missing:
                 sig = ("dominator missing: block has an unreachable predecessor" if has_unreachable_pred(succs)
                        else "dominator missing")
+            else:
+                sig = "spurious dominator"
+            if missing:
                 return DOM_SITE, sig, (f"dominates({missing[0]}, {b}) is False but every path from the entry to "
                                        f"block {b} passes through block {missing[0]}")
             extra = [a for a in got if a not in want][0]
-            return DOM_SITE, "spurious dominator", (f"dominates({extra}, {b}) is True but a path from the entry to "
-                                                    f"block {b} avoids block {extra}")
+            return DOM_SITE, sig, (f"dominates({extra}, {b}) is True but a path from the entry to "
+                                   f"block {b} avoids block {extra}")
         wants = [a for a in want if a != b]
         if sdom[b] != wants:
             return ("xdsl.irdl.dominance.DominanceInfo.strictly_dominates", "strict dominance differs from dominance minus equality",
                     f"strict dominators of block {b}: {sdom[b]}, expected {wants}")
-        if ml is not None and ml[b] != wants:
-            return SDOM_SITE, "module-level strictly_dominates differs from path-based strict dominance", \
-                f"strictly_dominates(a, {b}) true for a in {ml[b]}, expected {wants}"
+    for name, (strict, rel) in (ml or {}).items():
+        short = name.rsplit(".", 1)[1]
+        kind = "strict dominance" if strict else "dominance"
+        if isinstance(rel, str):
+            sig = "does not terminate" if rel == NONTERM else "exception on a well-formed region"
+            return name, sig, f"{short}(a, b) on blocks of one region: {rel}"
+        for b, want in ref.items():
+            wanted = [a for a in want if not (strict and a == b) and (pairs is None or (a, b) in pairs)]
+            if rel[b] != wanted:
+                where = "" if "DominanceInfo" in name else "module-level "
+                sig = f"{where}{short} differs from path-based {kind}"
+                asked = "" if pairs is None else " (of those asked)"
+                return name, sig, f"{short}(a, {b}) true for a in {rel[b]}, expected {wanted}{asked}"
     return None
 
 
@@ -272,17 +488,30 @@ def shrink_graph(succs, fails) -> Succs:
     return tuple(tuple(x) for x in cur)
 
 
+def dom_exception(line: str) -> tuple[str, str, str]:
+    if line == NONTERM:
+        return DOM_SITE, "does not terminate", (f"DominanceInfo(region) used more than {WATCHDOG_CPU_S} s of CPU time on this "
+                                                 "region (normal: well under a millisecond): the refinement loop does not converge")
+    return DOM_SITE, "exception on a well-formed region", f"DominanceInfo raised: {line}"
+
+
+def po_exception(line: str) -> tuple[str, str, str]:
+    if line == NONTERM:
+        return PO_SITE, "does not terminate", f"PostOrderIterator used more than {WATCHDOG_CPU_S} s of CPU time on this region"
+    return PO_SITE, "exception or runaway iteration", f"PostOrderIterator: {line}"
+
+
 def dom_failure(succs, style: str, module_level: bool):
     line, dom, sdom, ml = dom_impl(succs, style, module_level)
     if dom is None:
-        return (DOM_SITE, "exception on a well-formed region", f"DominanceInfo raised: {line}"), line
+        return dom_exception(line), line
     return dom_oracle(succs, dom, sdom, ml), line
 
 
 def po_failure(succs, style: str):
     line, out = po_impl(succs, style)
     if out is None or line.startswith("raise"):
-        return (PO_SITE, "exception or runaway iteration", f"PostOrderIterator: {line}"), line
+        return po_exception(line), line
     return po_oracle(succs, out), line
 
 
@@ -319,12 +548,131 @@ def random_graph(rng) -> Succs:
     return tuple(g)
 
 
+def relabel(g: Sequence[Sequence[int]], perm: Sequence[int]) -> Succs:
+    """the same graph with block i listed at position perm[i]"""
+    out: list[tuple[int, ...]] = [()] * len(g)
+    for i, ss in enumerate(g):
+        out[perm[i]] = tuple(perm[t] for t in ss)
+    return tuple(out)
+
+
+def shuffled(rng, g: Sequence[Sequence[int]]) -> Succs:
+    """the blocks after the entry listed in a random order (the region's block list need not be any traversal order)"""
+    rest = list(range(1, len(g)))
+    rng.shuffle(rest)
+    return relabel(g, [0] + rest)
+
+
+def structured_graph(rng, budget: int | None = None) -> Succs:
+    """A structured CFG (sequences, diamonds, while / do-while loops, nested; an occasional extra jump and an
+    unreachable block branching into it), built in the natural order in which every dominator is listed
+    first, then listed in a random order: loop headers and guards come AFTER the loops they dominate."""
+    budget = budget or rng.randint(4, 12)
+    g: list[list[int]] = [[]]
+
+    def new() -> int:
+        g.append([])
+        return len(g) - 1
+
+    def gen(cur: int, depth: int) -> int:
+        kind = rng.choice(["basic", "seq", "if", "while", "while", "dowhile", "dowhile"])
+        if depth == 0 or len(g) + 3 > budget:
+            kind = "basic"
+        if kind == "basic":
+            return cur
+        if kind == "seq":
+            mid = gen(cur, depth - 1)
+            nxt = new()
+            g[mid] = [nxt]
+            return gen(nxt, depth - 1)
+        if kind == "if":
+            t, e = new(), new()
+            g[cur] = [t, e]
+            te, ee = gen(t, depth - 1), gen(e, depth - 1)
+            j = new()
+            g[te], g[ee] = [j], [j]
+            return j
+        if kind == "while":
+            h = new()
+            g[cur] = [h]
+            b, x = new(), new()
+            g[h] = [b, x]
+            g[gen(b, depth - 1)] = [h]
+            return x
+        b = new()  # do-while
+        g[cur] = [b]
+        be = gen(b, depth - 1)
+        x = new()
+        g[be] = [b, x]
+        return x
+
+    last = 0
+    while len(g) + 3 <= budget:
+        last = gen(last, 3)
+        if len(g) + 1 <= budget and rng.random() < 0.7:
+            nxt = new()
+            g[last] = [nxt]
+            last = nxt
+    n = len(g)
+    if rng.random() < 0.3:  # an extra jump (may make the graph irreducible)
+        u = rng.randrange(n)
+        if len(g[u]) < 3:
+            g[u] = g[u] + [rng.randrange(n)]
+    if rng.random() < 0.25:  # an unreachable block branching into the graph
+        g.append([rng.randrange(n)])
+    return shuffled(rng, g) if rng.random() < 0.85 else tuple(tuple(x) for x in g)
+
+
+def order_stats(succs) -> tuple[bool, bool]:
+    """(some reachable block is listed BEFORE one of its strict dominators,
+        … and that block lies on a cycle: the dominator guards a loop listed before it)"""
+    ref = ref_dom(succs)
+    late = [(a, b) for b, ds in ref.items() for a in ds if a > b]
+    if not late:
+        return False, False
+
+    def on_cycle(b: int) -> bool:
+        seen, todo = set(), list(succs[b])
+        while todo:
+            u = todo.pop()
+            if u == b:
+                return True
+            if u not in seen and u < len(succs):
+                seen.add(u)
+                todo.extend(succs[u])
+        return False
+
+    return True, any(on_cycle(b) for _a, b in late)
+
+
 # ---------------------------------------------------------------------------------------------
 # run
 # ---------------------------------------------------------------------------------------------
 
 def as_case(kind: str, succs, style: str) -> dict:
     return {"function": kind, "succs": [list(s) for s in succs], "style": style}
+
+
+SHRUNK: dict[tuple[str, str], int] = {}
+
+
+def may_shrink(bad) -> bool:
+    """the first few failing inputs of a defect class are shrunk; ctx.fail keeps the smallest"""
+    k = (bad[0], bad[1])
+    SHRUNK[k] = SHRUNK.get(k, 0) + 1
+    return SHRUNK[k] <= 3
+
+
+def confirmed(bad, again: Callable[[], Any]):
+    """a non-termination is reported only if the case also uses up the larger budget CONFIRM_CPU_S"""
+    if bad is None or not bad[1].startswith("does not terminate"):
+        return bad
+    saved = globals()["WATCHDOG_CPU_S"]
+    globals()["WATCHDOG_CPU_S"] = CONFIRM_CPU_S
+    try:
+        return again()
+    finally:
+        globals()["WATCHDOG_CPU_S"] = saved
 
 
 def run_cases(ctx: core.Ctx, cases: list[tuple[Succs, str]], label: str, module_level_upto: int) -> None:
@@ -344,6 +692,14 @@ def run_cases(ctx: core.Ctx, cases: list[tuple[Succs, str]], label: str, module_
             ctx.count(f"{label}.with_unreachable_block")
         if has_unreachable_pred(succs):
             ctx.count(f"{label}.with_unreachable_predecessor_of_reachable_block")
+        late, late_loop = order_stats(succs)
+        if late:
+            ctx.count(f"{label}.listed_before_a_strict_dominator")
+        if late_loop:
+            ctx.count(f"{label}.loop_listed_before_the_block_that_guards_it")
+        if HANGS["n"] > MAX_HANGS:
+            ctx.extra["stopped_after_non_terminations"] = {"family": label, "count": HANGS["n"]}
+            break
         # ---- dominance
         line, dom, sdom, ml = dom_impl(succs, style, module_level=(n <= module_level_upto))
         ctx.ev()
@@ -353,16 +709,18 @@ def run_cases(ctx: core.Ctx, cases: list[tuple[Succs, str]], label: str, module_
             a, b = ref_dom(succs), ref_dom_paths(succs)
             if a != b:
                 raise core.InfraError(f"C24 oracles disagree on {succs}: {a} vs {b}")
-        bad = ((DOM_SITE, "exception on a well-formed region", f"DominanceInfo raised: {line}") if dom is None
-               else dom_oracle(succs, dom, sdom, ml))
+        bad = dom_exception(line) if dom is None else dom_oracle(succs, dom, sdom, ml)
         if bad is not None:
             small, sline = succs, line
-            if n > 3:  # cases beyond the exhaustive scope come unshrunk
-                ml_on = ml is not None
-                small = shrink_graph(succs, lambda c: (dom_failure(c, style, ml_on)[0] or ("", ""))[:2] == bad[:2])
+            ml_on = ml is not None
+            if n > 3 and may_shrink(bad):  # cases beyond the exhaustive scope come unshrunk
+                small = without_retry(lambda: shrink_graph(
+                    succs, lambda c: (dom_failure(c, style, ml_on)[0] or ("", ""))[:2] == bad[:2]))
                 bad, sline = dom_failure(small, style, ml_on)
-            ctx.fail(bad[0], bad[1], as_case("dominance", small, style), bad[2], sline,
-                     "d " + show_rel([ref_dom(small).get(b, ["?"]) for b in range(len(small))]))
+            bad = confirmed(bad, lambda: dom_failure(small, style, ml_on)[0])
+            if bad is not None:
+                ctx.fail(bad[0], bad[1], as_case("dominance", small, style), bad[2], sline,
+                         "d " + show_rel([ref_dom(small).get(b, ["?"]) for b in range(len(small))]))
         dom_lines.append(dom_line(succs)); dom_obs.append(line); dom_cases.append((succs, style))
         # ---- post-order
         if n >= 1 and style != "op":
@@ -370,15 +728,17 @@ def run_cases(ctx: core.Ctx, cases: list[tuple[Succs, str]], label: str, module_
             ctx.ev()
             if len(r) >= 2:
                 ctx.nt(("po", succs, style))
-            bad = ((PO_SITE, "exception or runaway iteration", f"PostOrderIterator: {line}")
-                   if out is None or line.startswith("raise") else po_oracle(succs, out))
+            bad = po_exception(line) if out is None or line.startswith("raise") else po_oracle(succs, out)
             if bad is not None:
                 small, sline = succs, line
-                if n > 3:
-                    small = shrink_graph(succs, lambda c: (po_failure(c, style)[0] or ("", ""))[:2] == bad[:2])
+                if n > 3 and may_shrink(bad):
+                    small = without_retry(lambda: shrink_graph(
+                        succs, lambda c: (po_failure(c, style)[0] or ("", ""))[:2] == bad[:2]))
                     bad, sline = po_failure(small, style)
-                ctx.fail(bad[0], bad[1], as_case("post_order", small, style), bad[2], sline,
-                         "any duplicate-free order of " + str(sorted(reach(small))) + " ending with 0")
+                bad = confirmed(bad, lambda: po_failure(small, style)[0])
+                if bad is not None:
+                    ctx.fail(bad[0], bad[1], as_case("post_order", small, style), bad[2], sline,
+                             "any duplicate-free order of " + str(sorted(reach(small))) + " ending with 0")
             po_lines.append(po_line(succs)); po_obs.append(line); po_cases.append((succs, style))
     for name, lines, obs, cs, kind in (("dominance", dom_lines, dom_obs, dom_cases, "dominance"),
                                        ("post_order", po_lines, po_obs, po_cases, "post_order")):
@@ -392,6 +752,331 @@ def run_cases(ctx: core.Ctx, cases: list[tuple[Succs, str]], label: str, module_
         i = core.diff_streams(obs, model)
         if i is not None:
             ctx.mismatch(f"correspondence:C24/{name}", as_case(kind, *cs[i]), obs[i], model[i])
+
+
+# ---------------------------------------------------------------------------------------------
+# histories: query / edit the same region / query again
+# ---------------------------------------------------------------------------------------------
+# "For every region control-flow graph": the graph is the one the region has WHEN it is asked.  A history
+# keeps one or two real regions alive, edits their control flow through the public mutation API and asks
+# every entry point again after the edits; every answer is judged against the graph read back from the
+# region at that moment (successor lists of each block's last operation, blocks in list order), and the
+# Lean model is run on that same graph.  Steps are lists of ints interpreted modulo the current sizes, so
+# every step applies to every state (shrinking may drop any of them):
+#   ["q", r]                  ask everything about region r
+#   ["retarget", r, b, k, t]  last_op(b).successors[k] = t          (blocks and their order unchanged)
+#   ["setsuccs", r, b, ts]    last_op(b).successors = ts            (same; cf style keeps the arity)
+#   ["newterm", r, b, ts]     erase the operations of b, append a new terminator with successors ts
+#   ["addblock", r, pos, ts]  insert a new block at list position pos branching to ts
+#   ["eraseblock", r, b, t]   retarget every edge into b to t, erase b (b = 0: the next block becomes the entry)
+#   ["moveblock", r, b, pos]  detach b, insert it at list position pos (pos = 0: it becomes the entry)
+#   ["rebuild", r, succs]     drop the region and build a new one (fresh objects, possibly at the same addresses)
+
+class Live:
+    """one real region under edit"""
+
+    def __init__(self, succs, style: str):
+        self.style = style
+        self.region, _blocks, _keep = build(succs, style)
+
+    def blocks(self) -> list[Any]:
+        return list(self.region.blocks)
+
+    def graph(self) -> Succs:
+        bl = self.blocks()
+        idx = {id(b): i for i, b in enumerate(bl)}
+        return tuple(tuple(idx[id(t)] for t in (b.last_op.successors if b.last_op is not None else ())) for b in bl)
+
+
+def set_term(block, tg, style: str) -> None:
+    for op in reversed(list(block.ops)):
+        block.erase_op(op)
+    add_term(block, tg, style)
+
+
+def apply_step(lives: list[Live | None], st: Sequence[Any], style: str) -> None:
+    from xdsl.ir import Block
+
+    kind, r = st[0], st[1] % len(lives)
+    if kind == "rebuild":
+        lives[r] = None
+        gc.collect()
+        lives[r] = Live(st[2], style)
+        return
+    live = lives[r]
+    assert live is not None
+    bl = live.blocks()
+    n = len(bl)
+    if n == 0:
+        return
+    if kind == "retarget":
+        op = bl[st[2] % n].last_op
+        if op is not None and len(op.successors):
+            op.successors[st[3] % len(op.successors)] = bl[st[4] % n]
+    elif kind == "setsuccs":
+        op = bl[st[2] % n].last_op
+        ts = list(st[3])
+        if op is None:
+            return
+        if style == "cf":  # cf.br / cf.cond_br have a fixed number of successors
+            k = len(op.successors)
+            ts = [ts[i % len(ts)] for i in range(k)] if ts else [t for t in range(k)]
+        op.successors = [bl[t % n] for t in ts]
+    elif kind == "newterm":
+        set_term(bl[st[2] % n], [bl[t % n] for t in st[3]], style)
+    elif kind == "addblock":
+        nb = Block()
+        live.region.insert_block(nb, st[2] % (n + 1))
+        bl = live.blocks()
+        add_term(nb, [bl[t % (n + 1)] for t in st[3]], style)
+    elif kind == "eraseblock":
+        if n < 2:
+            return
+        b = st[2] % n
+        t = st[3] % n
+        if t == b:
+            t = (b + 1) % n
+        for p in bl:
+            op = p.last_op
+            if op is not None:
+                for k, x in enumerate(list(op.successors)):
+                    if x is bl[b]:
+                        op.successors[k] = bl[t]
+        live.region.erase_block(bl[b])
+    elif kind == "moveblock":
+        blk = live.region.detach_block(bl[st[2] % n])
+        live.region.insert_block(blk, st[3] % n)
+    else:
+        raise core.InfraError(f"C24: unknown history step {st!r}")
+
+
+def asked_pairs(n: int, g, before, i: int):
+    """pairs (a, b) asked of the module-level functions (each call rebuilds the analysis): all of them on
+    small regions; on larger ones those whose expected answer changed since the region was last asked,
+    plus a fifth of the others (which fifth rotates with the step)."""
+    if n <= 4:
+        return None
+    now = ref_dom_full(g)
+    old = ref_dom_full(before) if before is not None and len(before) == n else None
+    return {(a, b) for b in range(n) for a in range(n)
+            if (a * n + b + i) % 5 == 0 or (old is not None and (a in now[b]) != (a in old[b]))}
+
+
+def _lists(x):
+    return [_lists(y) for y in x] if isinstance(x, (list, tuple)) else x
+
+
+def hist_case(regions, style: str, steps) -> dict:
+    return {"function": "history", "regions": _lists(regions), "style": style, "steps": _lists(steps)}
+
+
+def run_history(case: dict, trace: list | None = None):
+    """Executes the history on real regions.  Returns (bad, info) for the first query step at which the
+    property fails (bad as in dom_oracle / po_oracle; info = {step, region, graph, impl, expected}), else
+    (None, None).  `trace` collects (kind, graph, observation line, step) of every query for the
+    correspondence with the model; trace entries `("edit", changed_graph, changed_dominance)` for statistics."""
+    style = case["style"]
+    lives: list[Live | None] = [Live(g, style) for g in case["regions"]]
+    asked: list[list[Succs]] = [[] for _ in lives]
+    for i, st in enumerate(case["steps"]):
+        if st[0] != "q":
+            apply_step(lives, st, style)
+            if st[0] == "rebuild":
+                asked[st[1] % len(lives)] = []
+            continue
+        r = st[1] % len(lives)
+        live = lives[r]
+        assert live is not None
+        bl = live.blocks()
+        g = live.graph()
+        n = len(bl)
+        before = asked[r][-1] if asked[r] else None
+        if trace is not None and before is not None:
+            trace.append(("edit", before != g, len(before) != n or ref_dom_full(before) != ref_dom_full(g)))
+        pairs = asked_pairs(n, g, before, i)
+        line, dom, sdom, ml = observe_dom(live.region, bl, module_level=True, pairs=pairs)
+        if trace is not None:
+            trace.append(("dominance", g, line, i))
+        bad = dom_exception(line) if dom is None else dom_oracle(g, dom, sdom, ml, pairs)
+        if bad is not None:
+            if any(st[0] != "q" for st in case["steps"][:i]):
+                # the same control flow in a region built from scratch, asked the same way: if that is answered
+                # correctly the defect is one of histories (something outlives an edit), and is named so
+                region2, blocks2, _k = build(g, style)
+                l2, d2, s2, m2 = observe_dom(region2, blocks2, module_level=True, pairs=pairs)
+                if d2 is not None and dom_oracle(g, d2, s2, m2, pairs) is None:
+                    bad = (bad[0], bad[1] + " after an edit of the region (a region built from scratch with the same "
+                           "control flow is answered correctly)", bad[2])
+            return bad, {"step": i, "region": r, "graph": [list(x) for x in g], "impl": line if dom is None else
+                         {"DominanceInfo": line, **{k: v[1] for k, v in (ml or {}).items()}},
+                         "expected": "d " + show_rel(ref_dom_full(g)) + " (rows of unreachable blocks are not demanded)"}
+        if n >= 1 and style != "op":
+            pline, out = observe_po(bl[0], bl)
+            if trace is not None:
+                trace.append(("post_order", g, pline, i))
+            bad = po_exception(pline) if out is None or pline.startswith("raise") else po_oracle(g, out)
+            if bad is not None:
+                return bad, {"step": i, "region": r, "graph": [list(x) for x in g], "impl": pline,
+                             "expected": "any duplicate-free order of " + str(sorted(reach(g))) + " ending with 0"}
+        asked[r].append(g)
+    return None, None
+
+
+def shrink_history(case: dict, bad) -> dict:
+    def fails(c) -> bool:
+        try:
+            b, _ = run_history(c)
+        except core.InfraError:
+            raise
+        return b is not None and b[:2] == bad[:2]
+
+    steps = core.shrink_list(list(case["steps"]), lambda ss: fails({**case, "steps": ss}), max_steps=300)
+    cur = {**case, "steps": steps}
+    # one region is enough?
+    if len(cur["regions"]) > 1:
+        for keep in range(len(cur["regions"])):
+            cand = {**cur, "regions": [cur["regions"][keep]]}
+            if fails(cand):
+                cur = cand
+                break
+    # fewer edges / blocks in the initial graphs (steps are modular: they stay applicable)
+    for k in range(len(cur["regions"])):
+        def with_graph(gk, k=k):
+            return {**cur, "regions": [([list(x) for x in gk] if j == k else g) for j, g in enumerate(cur["regions"])]}
+        small = shrink_graph(cur["regions"][k], lambda c: len(c) >= 1 and fails(with_graph(c)))
+        cur = with_graph(small)
+    return cur
+
+
+def enum_edit_histories(n: int, styles: Sequence[str]) -> Iterator[dict]:
+    """every graph with n blocks x every single-edge retarget that changes it: ask, retarget, ask"""
+    for j, g in enumerate(enum_graphs(n)):
+        style = styles[j % len(styles)]
+        for b in range(n):
+            for k in range(len(g[b])):
+                for t in range(n):
+                    if t != g[b][k]:
+                        yield hist_case([g], style, [["q", 0], ["retarget", 0, b, k, t], ["q", 0]])
+
+
+def enum_newterm_histories(n: int, styles: Sequence[str]) -> Iterator[dict]:
+    """every graph with n blocks x every replacement of one block's terminator: ask, replace, ask"""
+    opts = [ss for d in range(3) for ss in itertools.product(range(n), repeat=d)]
+    for j, g in enumerate(enum_graphs(n)):
+        style = styles[j % len(styles)]
+        for b in range(n):
+            for ss in opts:
+                if ss != g[b]:
+                    yield hist_case([g], style, [["q", 0], ["newterm", 0, b, list(ss)], ["q", 0]])
+
+
+def random_history(rng, style: str) -> dict:
+    def graph() -> Succs:
+        x = rng.random()
+        if x < 0.45:
+            return structured_graph(rng, rng.randint(4, 8))
+        n = rng.randint(3, 8)
+        return tuple(tuple(rng.randrange(n) for _ in range(rng.choice([0, 1, 1, 2, 2, 2, 3]))) for _ in range(n))
+
+    regions = [graph() for _ in range(1 if rng.random() < 0.7 else 2)]
+    nr = len(regions)
+    steps: list[list[Any]] = [["q", r] for r in range(nr)]
+    big = 16
+
+    def targets() -> list[int]:
+        return [rng.randrange(big) for _ in range(rng.choice([0, 1, 1, 2, 2, 3]))]
+
+    for _ in range(rng.randint(2, 7)):
+        r = rng.randrange(nr)
+        x = rng.random()
+        if x < 0.45:
+            st = ["retarget", r, rng.randrange(big), rng.randrange(3), rng.randrange(big)]
+        elif x < 0.55:
+            st = ["setsuccs", r, rng.randrange(big), targets()]
+        elif x < 0.67:
+            st = ["newterm", r, rng.randrange(big), targets()]
+        elif x < 0.75:
+            st = ["addblock", r, rng.randrange(big), targets()]
+        elif x < 0.83:
+            st = ["eraseblock", r, rng.randrange(big), rng.randrange(big)]
+        elif x < 0.96:
+            st = ["moveblock", r, rng.randrange(big), rng.randrange(big)]
+        else:
+            st = ["rebuild", r, [list(x) for x in graph()]]
+        steps.append(st)
+        if rng.random() < 0.7:
+            steps.append(["q", r])
+        if nr > 1 and rng.random() < 0.3:
+            steps.append(["q", 1 - r])
+    steps.extend(["q", r] for r in range(nr))
+    return hist_case(regions, style, steps)
+
+
+def run_histories(ctx: core.Ctx, cases: Iterator[dict] | Sequence[dict], label: str, reserve_s: float = 15.0) -> int:
+    """returns the number of histories executed (stops when the time budget is nearly used up)"""
+    dom_t: list[tuple[Succs, str, dict, int]] = []
+    po_t: list[tuple[Succs, str, dict, int]] = []
+    done = failed = 0
+    for case in cases:
+        if done % 200 == 0 and ctx.time_left() < reserve_s:
+            ctx.extra.setdefault("histories_truncated", {})[label] = done
+            break
+        if HANGS["n"] > MAX_HANGS:
+            ctx.extra["stopped_after_non_terminations"] = {"family": label, "count": HANGS["n"]}
+            break
+        if failed >= 60:  # a broken tree fails thousands of histories: the smallest of 60 is evidence enough
+            ctx.extra.setdefault("histories_stopped_after_failures", {})[label] = done
+            break
+        done += 1
+        trace: list[Any] = []
+        bad, info = run_history(case, trace)
+        nq = 0
+        changed = False
+        for t in trace:
+            if t[0] == "edit":
+                ctx.count(f"{label}.asked_again")
+                if t[1]:
+                    ctx.count(f"{label}.asked_again_after_the_graph_changed")
+                if t[2]:
+                    ctx.count(f"{label}.asked_again_after_dominance_changed")
+                    changed = True
+            else:
+                nq += 1
+                ctx.ev()
+                (dom_t if t[0] == "dominance" else po_t).append((t[1], t[2], case, t[3]))
+        ctx.count(f"{label}.histories")
+        ctx.count(f"{label}.style.{case['style']}")
+        for st in case["steps"]:
+            ctx.count(f"{label}.step.{st[0]}")
+        if changed:
+            ctx.nt(json_key(case))
+        if bad is not None:
+            failed += 1
+            small, b2, i2 = case, bad, info
+            if may_shrink(bad):
+                small = without_retry(lambda: shrink_history(case, bad))
+                b2, i2 = run_history(small)
+                if b2 is None or b2[:2] != bad[:2]:
+                    small, b2, i2 = case, bad, info
+            b2 = confirmed(b2, lambda: run_history(small)[0])
+            if b2 is not None:
+                ctx.fail(b2[0], b2[1], small, f"at step {i2['step']} (graph of the region then: {i2['graph']}): {b2[2]}",
+                         i2["impl"], i2["expected"])
+    for name, tr, mk in (("dominance", dom_t, dom_line), ("post_order", po_t, po_line)):
+        if not tr:
+            continue
+        model = ctx.model(name, [mk(t[0]) for t in tr])
+        obs = [t[1] for t in tr]
+        i = core.diff_streams(obs, model)
+        if i is not None:
+            ctx.mismatch(f"correspondence:C24/{name}", {**tr[i][2], "at_step": tr[i][3]}, obs[i], model[i],
+                         f"implementation and Lean model disagree on the graph {[list(x) for x in tr[i][0]]} the region has at "
+                         f"step {tr[i][3]} of the history")
+    return done
+
+
+def json_key(case: dict) -> str:
+    return json.dumps(case, sort_keys=True)
 
 
 def run_malformed(ctx: core.Ctx, count: int) -> None:
@@ -421,8 +1106,9 @@ def run_malformed(ctx: core.Ctx, count: int) -> None:
 
 def run(ctx: core.Ctx) -> None:
     ctx.lean()
-    bound = 3 if ctx.tier == "quick" else 4
-    nrandom = 3000 if ctx.tier == "quick" else 25000
+    quick = ctx.tier == "quick"
+    bound = 3 if quick else 4
+    nrandom = 3000 if quick else 25000
     cases: list[tuple[Succs, str]] = [((), "term")]
     for n in range(1, bound + 1):
         for g in enum_graphs(n):
@@ -431,25 +1117,79 @@ def run(ctx: core.Ctx) -> None:
             else:
                 cases.extend(((g, "cf"), (g, "term")))
     run_cases(ctx, cases, "exhaustive", module_level_upto=3)
+    # histories, small scope: every graph x every single edit of one edge / one terminator
+    styles = ("cf", "term", "op")
+    nh = 0
+    for n in range(1, 3):
+        nh += run_histories(ctx, enum_edit_histories(n, styles), "history_exhaustive_retarget")
+        nh += run_histories(ctx, enum_edit_histories(n, styles[1:] + styles[:1]), "history_exhaustive_retarget")
+        nh += run_histories(ctx, enum_edit_histories(n, styles[2:] + styles[:2]), "history_exhaustive_retarget")
+        nh += run_histories(ctx, enum_newterm_histories(n, styles), "history_exhaustive_newterm")
+    nh += run_histories(ctx, enum_edit_histories(3, styles), "history_exhaustive_retarget",
+                        reserve_s=ctx.budget_s * (0.55 if quick else 0.5))
+    if not quick:
+        nh += run_histories(ctx, enum_newterm_histories(3, styles), "history_exhaustive_newterm", reserve_s=ctx.budget_s * 0.4)
+    # random: a third of the graphs are structured CFGs listed in a shuffled order
     rnd: list[tuple[Succs, str]] = []
     for i in range(nrandom):
-        rnd.append((random_graph(ctx.rng), ("cf", "term", "op")[i % 3]))
-    # a handful through the module-level entry point as well
-    run_cases(ctx, rnd[:100], "random", module_level_upto=12)
-    for k in range(100, len(rnd), 5000):
+        g = structured_graph(ctx.rng) if i % 3 == 2 else random_graph(ctx.rng)
+        rnd.append((g, ("cf", "term", "op")[(i // 3 + i) % 3]))
+    # a handful through the module-level entry points as well
+    run_cases(ctx, rnd[:150], "random", module_level_upto=14)
+    for k in range(150, len(rnd), 5000):
         if ctx.time_left() < 20:
             ctx.extra["random_truncated_at"] = k
             break
         run_cases(ctx, rnd[k:k + 5000], "random", module_level_upto=0)
+    nrh = 600 if quick else 8000
+    hs = [random_history(ctx.rng, styles[i % 3]) for i in range(nrh)]
+    nh += run_histories(ctx, hs, "history_random", reserve_s=10)
     run_malformed(ctx, 60)
     ctx.exhaustive = True
     ctx.extra["exhaustive_scope"] = (f"all CFGs with <= {bound} blocks, out-degree <= 2 (ordered successor lists with "
-                                     "duplicates and self-loops), every construction style; random beyond")
+                                     "duplicates and self-loops; the enumeration is over labelled graphs, i.e. every order "
+                                     "of the block list), every construction style; every such CFG with <= 2 blocks (and those "
+                                     "with 3 as far as the budget allows, see histories_truncated) x every single retargeted "
+                                     "edge / replaced terminator as ask-edit-ask history; random beyond")
+    ctx.extra["histories_run"] = nh
+    ctx.extra["entry_points"] = {"DominanceInfo": ["dominates", "strictly_dominates"] + [m[0] for m in entry_points()[0]],
+                                 "module": [f[0] for f in entry_points()[1]]}
+    ctx.extra["watchdog"] = {"cpu_s": WATCHDOG_CPU_S, "non_terminations": HANGS["n"]}
     mid = cases[len(cases) // 2]
     ctx.sample({**as_case("dominance", *mid), "impl": dom_impl(*mid)[0]})
     ctx.sample({**as_case("post_order", mid[0], "cf"), "impl": po_impl(mid[0], "cf")[0]})
     ctx.sample({**as_case("dominance", *rnd[0]), "impl": dom_impl(*rnd[0])[0]})
     ctx.sample({**as_case("post_order", rnd[1][0], "term"), "impl": po_impl(rnd[1][0], "term")[0]})
+    ctx.sample(hs[0])
+
+
+def replay_history(ctx: core.Ctx, case: dict) -> int:
+    print("regions (successors per block, block 0 = entry), style", case["style"])
+    for r, g in enumerate(case["regions"]):
+        print(f"  region {r}: {g}")
+    print("steps:")
+    for i, st in enumerate(case["steps"]):
+        print(f"  {i}: {st}")
+    trace: list[Any] = []
+    bad, info = run_history(case, trace)
+    rc = 0
+    for t in trace:
+        if t[0] == "edit":
+            continue
+        kind, g, line, i = t
+        model = ctx.model(kind, [(dom_line if kind == "dominance" else po_line)(g)])[0]
+        print(f"step {i}: the region's graph is {[list(x) for x in g]}")
+        print(f"   {kind:10} implementation: {line}")
+        print(f"   {kind:10} lean model    : {model}")
+        if line != model:
+            rc = 1
+    if bad is not None:
+        print(f"other entry points at step {info['step']}: {info['impl']}")
+        print(f"expected: {info['expected']}")
+        print(f"property FAILS on this case: {bad[0]} [{bad[1]}]: at step {info['step']}: {bad[2]}")
+        return 1
+    print("property holds on this case" + ("" if rc == 0 else " (but implementation and model differ)"))
+    return rc
 
 
 def replay(ctx: core.Ctx, body: dict) -> int:
@@ -458,6 +1198,8 @@ def replay(ctx: core.Ctx, body: dict) -> int:
         for name in ("dominance", "post_order"):
             print(name, "model:", ctx.model(name, case["lines"]))
         return 0
+    if case.get("function") == "history":
+        return replay_history(ctx, case)
     succs = tuple(tuple(s) for s in case["succs"])
     style = case.get("style", "term")
     n = len(succs)
@@ -474,7 +1216,7 @@ def replay(ctx: core.Ctx, body: dict) -> int:
         if dom is not None and wf:
             bad = dom_oracle(succs, dom, sdom, ml)
         elif dom is None and wf:
-            bad = (DOM_SITE, "exception on a well-formed region", line)
+            bad = dom_exception(line)
     else:
         line, out = po_impl(succs, style)
         model = ctx.model("post_order", [po_line(succs)])[0]
@@ -482,7 +1224,7 @@ def replay(ctx: core.Ctx, body: dict) -> int:
         print("implementation :", line)
         print("lean model     :", model)
         print("reachable from entry:", sorted(reach(succs)))
-        bad = po_oracle(succs, out) if out is not None and not line.startswith("raise") else (PO_SITE, "exception", line)
+        bad = po_oracle(succs, out) if out is not None and not line.startswith("raise") else po_exception(line)
     if bad is not None:
         print(f"property FAILS on this case: {bad[0]} [{bad[1]}]: {bad[2]}")
         return 1
